@@ -1,6 +1,1772 @@
-//! C10 — not built yet.
+//! C10 — authoritative answers follow the RFC 1034 §4.3.2 algorithm.
+//!
+//! Case line:  `q <mode> <origin> <zone> <qname> <qtype> <do>`
+//!   mode   `u` unsigned zone · `n` signed, NSEC · `3` signed, NSEC3
+//!   zone   RRsets in store (BTreeMap) order joined by `;`, each `owner/TYPE/rd+rd…`,
+//!          rd = `<tag>` or `<tag>@<target-name>`
+//!   names  ASCII labels joined by `.` with a trailing dot (`.` is the root)
+//! Implementation: real `InMemoryZoneHandler` (records inserted with `upsert_mut`) inside a
+//! `Catalog`; the query is built as wire bytes → `Request::from_bytes` → `Catalog::handle_request`
+//! → response bytes captured by a `ResponseHandler` → decoded → canonical summary
+//!   `<RCODE> aa=<0|1> an=<rrsets> ns=<rrsets> ar=<rrsets>`.
+//! Oracle: `reference()` below — RFC 1034 §4.3.2 + RFC 4592 written from the RFC text.
+use std::collections::{BTreeMap, BTreeSet};
+use std::net::SocketAddr;
+use std::sync::{Arc, Mutex};
+
+use hickory_net::runtime::{TokioRuntimeProvider, TokioTime};
+use hickory_net::xfer::Protocol;
+use hickory_net::NetError;
+use hickory_proto::dnssec::rdata::{DNSSECRData, DNSKEY, DS};
+use hickory_proto::dnssec::{crypto::Ed25519SigningKey, Algorithm, DigestType, DnssecSigner, SigningKey};
+use hickory_proto::op::{Edns, Message, Query};
+use hickory_proto::rr::rdata::{A, AAAA, CNAME, MX, NS, SOA, TXT};
+use hickory_proto::rr::{LowerName, Name, RData, Record, RecordType};
+use hickory_proto::serialize::binary::{BinDecodable, BinDecoder, BinEncoder};
+use hickory_server::dnssec::NxProofKind;
+use hickory_server::server::{Request, RequestHandler, ResponseHandler, ResponseInfo};
+use hickory_server::store::in_memory::InMemoryZoneHandler;
+use hickory_server::zone_handler::{AxfrPolicy, Catalog, MessageResponse, ZoneHandler, ZoneType};
+
 use crate::common::*;
 
-pub fn run(_o: &Opts, rec: &mut Recorder) {
-    rec.rule = "stub".into();
+// ------------------------------------------------------------------------------------------
+// abstract zone representation shared with the Lean side
+// ------------------------------------------------------------------------------------------
+
+pub type LName = Vec<String>; // lower-case labels, first label first
+
+pub const T_A: u16 = 1;
+pub const T_NS: u16 = 2;
+pub const T_CNAME: u16 = 5;
+pub const T_SOA: u16 = 6;
+pub const T_MX: u16 = 15;
+pub const T_TXT: u16 = 16;
+pub const T_AAAA: u16 = 28;
+pub const T_DS: u16 = 43;
+pub const T_RRSIG: u16 = 46;
+pub const T_NSEC: u16 = 47;
+pub const T_DNSKEY: u16 = 48;
+pub const T_NSEC3: u16 = 50;
+pub const T_ANY: u16 = 255;
+
+pub const QTYPES: [u16; 9] = [T_A, T_AAAA, T_MX, T_NS, T_CNAME, T_SOA, T_DS, T_TXT, T_ANY];
+
+fn ty_name(t: u16) -> String {
+    match t {
+        T_A => "A".into(),
+        T_NS => "NS".into(),
+        T_CNAME => "CNAME".into(),
+        T_SOA => "SOA".into(),
+        T_MX => "MX".into(),
+        T_TXT => "TXT".into(),
+        T_AAAA => "AAAA".into(),
+        T_DS => "DS".into(),
+        T_RRSIG => "RRSIG".into(),
+        T_NSEC => "NSEC".into(),
+        T_DNSKEY => "DNSKEY".into(),
+        T_NSEC3 => "NSEC3".into(),
+        T_ANY => "ANY".into(),
+        n => format!("TYPE{n}"),
+    }
+}
+
+fn ty_parse(s: &str) -> Option<u16> {
+    Some(match s {
+        "A" => T_A,
+        "NS" => T_NS,
+        "CNAME" => T_CNAME,
+        "SOA" => T_SOA,
+        "MX" => T_MX,
+        "TXT" => T_TXT,
+        "AAAA" => T_AAAA,
+        "DS" => T_DS,
+        "ANY" => T_ANY,
+        _ => return None,
+    })
+}
+
+#[derive(Clone, Debug, PartialEq, Eq, PartialOrd, Ord, Hash)]
+pub struct Rd {
+    pub tag: u32,
+    pub target: Option<LName>,
+}
+
+#[derive(Clone, Debug, PartialEq, Eq, PartialOrd, Ord, Hash)]
+pub struct Rs {
+    pub name: LName,
+    pub ty: u16,
+    pub rds: Vec<Rd>,
+}
+
+pub fn name_txt(n: &LName) -> String {
+    if n.is_empty() {
+        ".".into()
+    } else {
+        let mut s = n.join(".");
+        s.push('.');
+        s
+    }
+}
+
+fn label_ok(l: &str) -> bool {
+    !l.is_empty() && l.len() <= 63 && l.bytes().all(|c| c.is_ascii_alphanumeric() || c == b'*' || c == b'_' || c == b'-')
+}
+
+/// parses a name token, keeping the letter case
+pub fn name_parse_case(s: &str) -> Option<LName> {
+    if s == "." {
+        return Some(vec![]);
+    }
+    let s = s.strip_suffix('.')?;
+    let v: Vec<String> = s.split('.').map(String::from).collect();
+    if v.iter().all(|l| label_ok(l)) && v.iter().map(|l| l.len() + 1).sum::<usize>() < 255 {
+        Some(v)
+    } else {
+        None
+    }
+}
+
+pub fn lower(n: &LName) -> LName {
+    n.iter().map(|l| l.to_ascii_lowercase()).collect()
+}
+
+pub fn name_parse(s: &str) -> Option<LName> {
+    let n = name_parse_case(s)?;
+    if n == lower(&n) { Some(n) } else { None }
+}
+
+fn rd_txt(r: &Rd) -> String {
+    match &r.target {
+        Some(t) => format!("{}@{}", r.tag, name_txt(t)),
+        None => format!("{}", r.tag),
+    }
+}
+
+fn rs_txt(r: &Rs) -> String {
+    format!("{}/{}/{}", name_txt(&r.name), ty_name(r.ty), r.rds.iter().map(rd_txt).collect::<Vec<_>>().join("+"))
+}
+
+pub fn zone_txt(z: &[Rs]) -> String {
+    if z.is_empty() { "-".into() } else { z.iter().map(rs_txt).collect::<Vec<_>>().join(";") }
+}
+
+fn rd_parse(s: &str) -> Option<Rd> {
+    match s.split_once('@') {
+        Some((t, n)) => Some(Rd { tag: t.parse().ok()?, target: Some(name_parse(n)?) }),
+        None => Some(Rd { tag: s.parse().ok()?, target: None }),
+    }
+}
+
+fn rs_parse(s: &str) -> Option<Rs> {
+    let mut it = s.split('/');
+    let name = name_parse(it.next()?)?;
+    let ty = ty_parse(it.next()?)?;
+    if ty == T_ANY {
+        return None;
+    }
+    let rds: Option<Vec<Rd>> = it.next()?.split('+').map(rd_parse).collect();
+    let rds = rds?;
+    if it.next().is_some() || rds.is_empty() {
+        return None;
+    }
+    // shape of the rdata per type
+    let need_target = matches!(ty, T_NS | T_CNAME | T_MX);
+    if rds.iter().any(|r| r.target.is_some() != need_target || r.tag > 250) {
+        return None;
+    }
+    Some(Rs { name, ty, rds })
+}
+
+pub fn zone_parse(s: &str) -> Option<Vec<Rs>> {
+    if s == "-" {
+        return Some(vec![]);
+    }
+    s.split(';').map(rs_parse).collect()
+}
+
+#[derive(Clone, Debug)]
+pub struct Case {
+    pub mode: char,
+    pub origin: LName,
+    pub zone: Vec<Rs>,
+    pub qname: LName, // case as sent
+    pub qtype: u16,
+    pub dnssec_ok: bool,
+    /// mode `n`: the store after signing (NSEC chain, DNSKEY, RRSIG labels), as `dump_store` prints it
+    pub store: Option<String>,
+}
+
+pub fn case_line(c: &Case) -> String {
+    let mut l = format!(
+        "q {} {} {} {} {} {}",
+        c.mode,
+        name_txt(&c.origin),
+        zone_txt(&c.zone),
+        name_txt(&c.qname),
+        ty_name(c.qtype),
+        b(c.dnssec_ok)
+    );
+    if let Some(st) = &c.store {
+        l.push(' ');
+        l.push_str(st);
+    }
+    l
+}
+
+fn case_parse(t: &[&str]) -> Option<Case> {
+    match t {
+        ["q", mode, origin, zone, qname, qtype, d, store] => {
+            let mut c = case_parse(&["q", mode, origin, zone, qname, qtype, d])?;
+            if c.mode != 'n' {
+                return None;
+            }
+            c.store = Some(store.to_string());
+            Some(c)
+        }
+        ["q", mode, origin, zone, qname, qtype, d] => Some(Case {
+            store: None,
+            mode: match *mode {
+                "u" => 'u',
+                "n" => 'n',
+                "3" => '3',
+                _ => return None,
+            },
+            origin: name_parse(origin)?,
+            zone: zone_parse(zone)?,
+            qname: name_parse_case(qname)?,
+            qtype: ty_parse(qtype)?,
+            dnssec_ok: match *d {
+                "0" => false,
+                "1" => true,
+                _ => return None,
+            },
+        }),
+        _ => None,
+    }
+}
+
+// ------------------------------------------------------------------------------------------
+// the real thing
+// ------------------------------------------------------------------------------------------
+
+fn to_name(n: &LName) -> Name {
+    let mut r = Name::from_labels(n.iter().map(|l| l.as_bytes())).expect("name");
+    r.set_fqdn(true);
+    r
+}
+
+fn from_name(n: &Name) -> LName {
+    n.iter().map(|l| String::from_utf8_lossy(l).to_ascii_lowercase()).collect()
+}
+
+fn to_rdata(ty: u16, rd: &Rd, origin: &LName) -> RData {
+    let tgt = || to_name(rd.target.as_ref().expect("target"));
+    match ty {
+        T_A => RData::A(A::new(192, 0, 2, rd.tag as u8)),
+        T_AAAA => RData::AAAA(AAAA::new(0x2001, 0xdb8, 0, 0, 0, 0, 0, rd.tag as u16)),
+        T_TXT => RData::TXT(TXT::new(vec![format!("t{}", rd.tag)])),
+        T_MX => RData::MX(MX::new(rd.tag as u16, tgt())),
+        T_NS => RData::NS(NS(tgt())),
+        T_CNAME => RData::CNAME(CNAME(tgt())),
+        T_DS => RData::DNSSEC(DNSSECRData::DS(DS::new(
+            rd.tag as u16,
+            Algorithm::ED25519,
+            DigestType::SHA256,
+            vec![rd.tag as u8; 32],
+        ))),
+        T_SOA => {
+            let mut m = vec!["ns".to_string()];
+            m.extend(origin.iter().cloned());
+            let mut h = vec!["h".to_string()];
+            h.extend(origin.iter().cloned());
+            RData::SOA(SOA::new(to_name(&m), to_name(&h), 1 + rd.tag, 3600, 600, 86400, 300))
+        }
+        _ => unreachable!(),
+    }
+}
+
+/// inverse of `to_rdata` on what the server sends back (`None`: not a record of the universe)
+fn from_rdata(d: &RData) -> Option<Rd> {
+    Some(match d {
+        RData::A(a) => Rd { tag: a.0.octets()[3] as u32, target: None },
+        RData::AAAA(a) => Rd { tag: a.0.segments()[7] as u32, target: None },
+        RData::TXT(t) => {
+            let s = t.to_string();
+            Rd { tag: s.trim_matches('"').trim_start_matches('t').parse().ok()?, target: None }
+        }
+        RData::MX(m) => Rd { tag: m.preference as u32, target: Some(from_name(&m.exchange)) },
+        RData::NS(n) => Rd { tag: 0, target: Some(from_name(&n.0)) },
+        RData::CNAME(n) => Rd { tag: 0, target: Some(from_name(&n.0)) },
+        RData::DNSSEC(DNSSECRData::DS(ds)) => Rd { tag: ds.key_tag() as u32, target: None },
+        RData::SOA(_) => Rd { tag: 0, target: None },
+        _ => return None,
+    })
+}
+
+#[derive(Clone, Default)]
+struct Capture {
+    buf: Arc<Mutex<Option<Vec<u8>>>>,
+}
+
+#[async_trait::async_trait]
+impl ResponseHandler for Capture {
+    async fn send_response<'a>(
+        &mut self,
+        response: MessageResponse<
+            '_,
+            'a,
+            impl Iterator<Item = &'a Record> + Send + 'a,
+            impl Iterator<Item = &'a Record> + Send + 'a,
+            impl Iterator<Item = &'a Record> + Send + 'a,
+            impl Iterator<Item = &'a Record> + Send + 'a,
+        >,
+    ) -> Result<ResponseInfo, NetError> {
+        let mut bytes = Vec::with_capacity(512);
+        let info = {
+            let mut enc = BinEncoder::new(&mut bytes);
+            response.destructive_emit(&mut enc)?
+        };
+        *self.buf.lock().unwrap() = Some(bytes);
+        Ok(info)
+    }
+}
+
+thread_local! {
+    static RT: tokio::runtime::Runtime = tokio::runtime::Builder::new_current_thread().enable_all().build().expect("rt");
+    static KEY: Vec<u8> = Ed25519SigningKey::generate_pkcs8().expect("key").secret_pkcs8_der().to_vec();
+    /// last catalog built (most runs query one zone many times)
+    static CACHE: std::cell::RefCell<Option<(String, Option<(Arc<Catalog>, Option<Vec<StoreRs>>)>)>> = const { std::cell::RefCell::new(None) };
+}
+
+/// one RRset of the signed store
+#[derive(Clone, Debug, PartialEq, Eq)]
+pub struct StoreRs {
+    pub name: LName,
+    pub ty: u16,
+    pub rds: Vec<Rd>,
+    /// NSEC: the type bitmap
+    pub types: Vec<u16>,
+    /// labels field of the RRset's RRSIG
+    pub sig_labels: Option<u8>,
+}
+
+fn store_txt(st: &[StoreRs]) -> String {
+    st.iter()
+        .map(|r| {
+            let mut rds: Vec<String> = r.rds.iter().map(rd_txt).collect();
+            if r.ty == T_NSEC {
+                rds[0] = format!("{}~{}", rds[0], r.types.iter().map(|t| ty_name(*t)).collect::<Vec<_>>().join(","));
+            }
+            format!(
+                "{}/{}/{}{}",
+                name_txt(&r.name),
+                ty_name(r.ty),
+                rds.join("+"),
+                r.sig_labels.map(|l| format!("/s{l}")).unwrap_or_default()
+            )
+        })
+        .collect::<Vec<_>>()
+        .join(";")
+}
+
+fn dump_store(h: &mut InMemoryZoneHandler<TokioRuntimeProvider>) -> Option<Vec<StoreRs>> {
+    let mut v = vec![];
+    for rs in h.records_get_mut().values() {
+        let ty = u16::from(rs.record_type());
+        let mut types = vec![];
+        let mut rds = vec![];
+        for r in rs.records_without_rrsigs() {
+            match &r.data {
+                RData::DNSSEC(DNSSECRData::NSEC(n)) => {
+                    types = n.type_bit_maps().map(u16::from).collect();
+                    types.sort();
+                    rds.push(Rd { tag: 0, target: Some(from_name(n.next_domain_name())) });
+                }
+                RData::DNSSEC(DNSSECRData::DNSKEY(_)) => rds.push(Rd { tag: 0, target: None }),
+                d => rds.push(from_rdata(d)?),
+            }
+        }
+        let mut sigs = rs.records(true).filter_map(|r| match &r.data {
+            RData::DNSSEC(DNSSECRData::RRSIG(s)) => Some(s.input().num_labels),
+            _ => None,
+        });
+        let sig_labels = sigs.next();
+        if sigs.next().is_some() {
+            return None;
+        }
+        v.push(StoreRs { name: from_name(rs.name()), ty, rds, types, sig_labels });
+    }
+    Some(v)
+}
+
+/// Builds the handler from the RRsets of the case; `None` if a record was refused by `upsert_mut`
+/// or the store does not iterate in the order of the case line.
+fn build_catalog(c: &Case) -> Option<(Arc<Catalog>, Option<Vec<StoreRs>>)> {
+    let key = format!("{} {} {}", c.mode, name_txt(&c.origin), zone_txt(&c.zone));
+    if let Some(hit) = CACHE.with(|k| k.borrow().as_ref().filter(|(s, _)| *s == key).map(|(_, v)| v.clone())) {
+        return hit;
+    }
+    let built = build_catalog_uncached(c);
+    CACHE.with(|k| *k.borrow_mut() = Some((key, built.clone())));
+    built
+}
+
+fn build_catalog_uncached(c: &Case) -> Option<(Arc<Catalog>, Option<Vec<StoreRs>>)> {
+    let origin = to_name(&c.origin);
+    let kind = match c.mode {
+        'n' => Some(NxProofKind::Nsec),
+        '3' => Some(NxProofKind::Nsec3 {
+            algorithm: Default::default(),
+            salt: Arc::new([]),
+            iterations: 0,
+            opt_out: false,
+        }),
+        _ => None,
+    };
+    let mut h = InMemoryZoneHandler::<TokioRuntimeProvider>::empty(origin.clone(), ZoneType::Primary, AxfrPolicy::Deny, kind);
+    for rs in &c.zone {
+        for rd in &rs.rds {
+            let rec = Record::from_rdata(to_name(&rs.name), 3600, to_rdata(rs.ty, rd, &c.origin));
+            if !h.upsert_mut(rec, 1) {
+                return None;
+            }
+        }
+    }
+    // the model walks the zone in the order of the case line: it must be the store's order
+    {
+        let stored: Vec<(LName, u16)> =
+            h.records_get_mut().keys().map(|k| (from_name(&Name::from(&k.name)), u16::from(k.record_type))).collect();
+        let want: Vec<(LName, u16)> = c.zone.iter().map(|r| (r.name.clone(), r.ty)).collect();
+        if stored != want {
+            return None;
+        }
+        for (k, rs) in h.records_get_mut().iter() {
+            let _ = k;
+            let got: Vec<Option<Rd>> = rs.records_without_rrsigs().map(|r| from_rdata(&r.data)).collect();
+            let w = c.zone.iter().find(|x| x.ty == u16::from(rs.record_type()) && x.name == from_name(rs.name()))?;
+            if got != w.rds.iter().map(|r| Some(norm_rd(w.ty, r))).collect::<Vec<_>>() {
+                return None;
+            }
+        }
+    }
+    if c.mode != 'u' {
+        let der = KEY.with(|k| k.clone());
+        let key = Ed25519SigningKey::from_pkcs8(&der.into()).ok()?;
+        let signer = DnssecSigner::new(
+            DNSKEY::from_key(&key.to_public_key().ok()?),
+            Box::new(key),
+            origin.clone(),
+            std::time::Duration::from_secs(86400),
+        );
+        h.add_zone_signing_key_mut(signer).ok()?;
+        h.secure_zone_mut().ok()?;
+    }
+    let store = if c.mode == 'n' { Some(dump_store(&mut h)?) } else { None };
+    let mut cat = Catalog::new();
+    cat.upsert(LowerName::new(&origin), vec![Arc::new(h) as Arc<dyn ZoneHandler>]);
+    Some((Arc::new(cat), store))
+}
+
+/// how an rdata of the case line reads back from the wire (NS/CNAME carry no tag, SOA none)
+fn norm_rd(ty: u16, r: &Rd) -> Rd {
+    match ty {
+        T_NS | T_CNAME | T_SOA => Rd { tag: 0, target: r.target.clone() },
+        _ => r.clone(),
+    }
+}
+
+fn query_bytes(c: &Case) -> Vec<u8> {
+    let mut m = Message::query();
+    m.metadata.id = 0x1234;
+    let mut qn = Name::from_labels(c.qname.iter().map(|l| l.as_bytes())).expect("qname");
+    qn.set_fqdn(true);
+    m.add_query(Query::new(qn, RecordType::from(c.qtype)));
+    if c.dnssec_ok {
+        let mut e = Edns::new();
+        e.set_dnssec_ok(true);
+        e.set_max_payload(4096);
+        m.set_edns(e);
+    }
+    m.to_vec().expect("encode query")
+}
+
+fn ask(cat: &Catalog, c: &Case) -> Result<Message, String> {
+    let bytes = query_bytes(c);
+    let src: SocketAddr = ([127, 0, 0, 1], 5353).into();
+    let req = Request::from_bytes(bytes, src, Protocol::Tcp).map_err(|e| format!("request: {e}"))?;
+    let cap = Capture::default();
+    RT.with(|rt| rt.block_on(cat.handle_request::<_, TokioTime>(&req, cap.clone())));
+    let out = cap.buf.lock().unwrap().take().ok_or("no response sent")?;
+    let mut d = BinDecoder::new(&out);
+    Message::read(&mut d).map_err(|e| format!("response does not decode: {e}"))
+}
+
+/// one RRset of a response section, as the canonical summary prints it
+#[derive(Clone, Debug, PartialEq, Eq, PartialOrd, Ord)]
+pub struct OutRs {
+    pub name: LName,
+    pub ty: u16,
+    /// data records: the rdatas; RRSIG: `covered.labels`; NSEC: `next:types`
+    pub rds: Vec<String>,
+}
+
+fn out_txt(v: &[OutRs]) -> String {
+    if v.is_empty() {
+        return "-".into();
+    }
+    v.iter()
+        .map(|r| format!("{}/{}/{}", name_txt(&r.name), ty_name(r.ty), r.rds.join("+")))
+        .collect::<Vec<_>>()
+        .join(";")
+}
+
+fn section(recs: &[Record]) -> Vec<OutRs> {
+    let mut out: Vec<OutRs> = vec![];
+    for r in recs {
+        let name = from_name(&r.name);
+        let ty = u16::from(r.record_type());
+        let rd = match &r.data {
+            RData::DNSSEC(DNSSECRData::RRSIG(s)) => {
+                format!("{}.{}", ty_name(u16::from(s.input().type_covered)), s.input().num_labels)
+            }
+            RData::DNSSEC(DNSSECRData::NSEC(n)) => {
+                let mut tys: Vec<u16> = n.type_bit_maps().map(u16::from).collect();
+                tys.sort();
+                format!(
+                    "{}:{}",
+                    name_txt(&from_name(n.next_domain_name())),
+                    tys.iter().map(|t| ty_name(*t)).collect::<Vec<_>>().join(",")
+                )
+            }
+            RData::DNSSEC(DNSSECRData::NSEC3(n)) => {
+                let mut tys: Vec<u16> = n.type_bit_maps().map(u16::from).collect();
+                tys.sort();
+                format!("{}:{}", hex(n.next_hashed_owner_name()), tys.iter().map(|t| ty_name(*t)).collect::<Vec<_>>().join(","))
+            }
+            d => match from_rdata(d) {
+                Some(rd) => rd_txt(&rd),
+                None => "?".into(),
+            },
+        };
+        match out.last_mut() {
+            Some(l) if l.name == name && l.ty == ty => l.rds.push(rd),
+            _ => out.push(OutRs { name, ty, rds: vec![rd] }),
+        }
+    }
+    out
+}
+
+#[derive(Clone, Debug)]
+pub struct Resp {
+    pub rcode: String,
+    pub aa: bool,
+    pub an: Vec<OutRs>,
+    pub ns: Vec<OutRs>,
+    pub ar: Vec<OutRs>,
+}
+
+fn resp_of(m: &Message) -> Resp {
+    let rc = u16::from(m.metadata.response_code);
+    Resp {
+        rcode: match rc {
+            0 => "NOERROR".into(),
+            2 => "SERVFAIL".into(),
+            3 => "NXDOMAIN".into(),
+            5 => "REFUSED".into(),
+            n => format!("RC{n}"),
+        },
+        aa: m.metadata.authoritative,
+        an: section(&m.answers),
+        ns: section(&m.authorities),
+        ar: section(&m.additionals),
+    }
+}
+
+fn resp_txt(r: &Resp) -> String {
+    format!("{} aa={} an={} ns={} ar={}", r.rcode, b(r.aa), out_txt(&r.an), out_txt(&r.ns), out_txt(&r.ar))
+}
+
+// ------------------------------------------------------------------------------------------
+// reference: RFC 1034 §4.3.2 with RFC 4592 wildcards, RFC 4035 §3.1.4.1 (DS at a cut),
+// RFC 8482 (ANY may be answered with a subset).  Written from the RFC text.
+// ------------------------------------------------------------------------------------------
+
+struct RefZone<'a> {
+    origin: &'a LName,
+    /// node → type → RRset
+    nodes: BTreeMap<LName, BTreeMap<u16, &'a Rs>>,
+}
+
+fn is_suffix(anc: &[String], n: &[String]) -> bool {
+    anc.len() <= n.len() && n[n.len() - anc.len()..] == *anc
+}
+
+impl<'a> RefZone<'a> {
+    fn new(origin: &'a LName, zone: &'a [Rs]) -> Self {
+        let mut nodes: BTreeMap<LName, BTreeMap<u16, &Rs>> = BTreeMap::new();
+        for rs in zone {
+            nodes.entry(rs.name.clone()).or_default().insert(rs.ty, rs);
+        }
+        Self { origin, nodes }
+    }
+    fn in_zone(&self, n: &[String]) -> bool {
+        is_suffix(self.origin, n)
+    }
+    /// RFC 4592 §2.2.2: a name exists if it or one of its descendants owns an RRset
+    fn exists(&self, n: &[String]) -> bool {
+        self.nodes.keys().any(|k| is_suffix(n, k))
+    }
+    fn get(&self, n: &[String], t: u16) -> Option<&'a Rs> {
+        self.nodes.get(n).and_then(|m| m.get(&t)).copied()
+    }
+    /// first zone cut met walking down from the apex towards `n` (RFC 1034 §4.3.2 step 3b)
+    fn cut(&self, n: &[String], qtype: u16) -> Option<LName> {
+        let ol = self.origin.len();
+        for k in (ol + 1)..=n.len() {
+            let anc = n[n.len() - k..].to_vec();
+            if self.get(&anc, T_NS).is_some() {
+                // the DS RRset of a delegation lives on the parent side of the cut
+                if k == n.len() && qtype == T_DS {
+                    return None;
+                }
+                return Some(anc);
+            }
+        }
+        None
+    }
+}
+
+#[derive(Debug, Clone, PartialEq, Eq)]
+pub enum Terminal {
+    /// RRset(s) of the queried type found (owner rewritten for wildcard synthesis)
+    Data,
+    /// `ANY`: all RRsets of the node (a non-empty subset is a valid answer)
+    AnyOf(Vec<OutRs>),
+    NoData,
+    NxDomain,
+    Referral(LName),
+    /// chain left the zone or looped
+    ChainEnd,
+}
+
+#[derive(Debug, Clone)]
+pub struct Expected {
+    pub refused: bool,
+    /// CNAME chain followed by the final data RRset (if any), in order
+    pub answers: Vec<OutRs>,
+    pub terminal: Terminal,
+    /// number of CNAMEs followed
+    pub cnames: usize,
+    pub wildcard_used: bool,
+    /// names resolved: the query name, then every CNAME target followed
+    pub visited: Vec<LName>,
+}
+
+fn out_of(rs: &Rs, owner: &LName) -> OutRs {
+    OutRs { name: owner.clone(), ty: rs.ty, rds: rs.rds.iter().map(|r| rd_txt(&norm_rd(rs.ty, r))).collect() }
+}
+
+fn reference(origin: &LName, zone: &[Rs], qname: &LName, qtype: u16) -> Expected {
+    let z = RefZone::new(origin, zone);
+    let mut exp = Expected { refused: false, answers: vec![], terminal: Terminal::NoData, cnames: 0, wildcard_used: false, visited: vec![] };
+    if !z.in_zone(qname) {
+        exp.refused = true;
+        return exp;
+    }
+    let mut cur = qname.clone();
+    let mut seen: BTreeSet<LName> = BTreeSet::new();
+    loop {
+        seen.insert(cur.clone());
+        exp.visited.push(cur.clone());
+        // step 3b: referral
+        if let Some(cut) = z.cut(&cur, qtype) {
+            exp.terminal = Terminal::Referral(cut);
+            return exp;
+        }
+        // step 3a / 3c: the node, or the wildcard at the closest encloser
+        let (node, owner): (Option<LName>, LName) = if z.exists(&cur) {
+            (Some(cur.clone()), cur.clone())
+        } else {
+            // closest encloser: longest existing ancestor (the apex always exists)
+            let mut ce = cur[1..].to_vec();
+            while !ce.is_empty() && !z.exists(&ce) {
+                ce = ce[1..].to_vec();
+            }
+            let mut w = vec!["*".to_string()];
+            w.extend(ce);
+            if z.exists(&w) {
+                exp.wildcard_used = true;
+                (Some(w), cur.clone())
+            } else {
+                (None, cur.clone())
+            }
+        };
+        let Some(node) = node else {
+            exp.terminal = Terminal::NxDomain;
+            return exp;
+        };
+        if qtype == T_ANY {
+            let all: Vec<OutRs> = z.nodes.get(&node).map(|m| m.values().map(|r| out_of(r, &owner)).collect()).unwrap_or_default();
+            exp.terminal = if all.is_empty() { Terminal::NoData } else { Terminal::AnyOf(all) };
+            return exp;
+        }
+        if let (Some(c), true) = (z.get(&node, T_CNAME), qtype != T_CNAME) {
+            exp.answers.push(out_of(c, &owner));
+            exp.cnames += 1;
+            let target = c.rds[0].target.clone().unwrap();
+            if !z.in_zone(&target) || seen.contains(&target) || exp.cnames >= 64 {
+                exp.terminal = Terminal::ChainEnd;
+                return exp;
+            }
+            cur = target;
+            continue;
+        }
+        match z.get(&node, qtype) {
+            Some(rs) => {
+                exp.answers.push(out_of(rs, &owner));
+                exp.terminal = Terminal::Data;
+            }
+            None => exp.terminal = Terminal::NoData,
+        }
+        return exp;
+    }
+}
+
+fn sorted(v: &[OutRs]) -> Vec<OutRs> {
+    let mut v: Vec<OutRs> = v
+        .iter()
+        .map(|r| {
+            let mut r = r.clone();
+            r.rds.sort();
+            r
+        })
+        .collect();
+    v.sort();
+    v
+}
+
+fn data_only(v: &[OutRs]) -> Vec<OutRs> {
+    v.iter().filter(|r| !matches!(r.ty, T_RRSIG | T_NSEC | T_NSEC3)).cloned().collect()
+}
+
+/// The property's demands on the response, clause by clause.  Returns (clause, message) pairs.
+fn check(c: &Case, exp: &Expected, r: &Resp) -> Vec<(&'static str, String)> {
+    let mut f: Vec<(&'static str, String)> = vec![];
+    let z = RefZone::new(&c.origin, &c.zone);
+    if exp.refused {
+        if r.rcode != "REFUSED" || !r.an.is_empty() {
+            f.push(("refused", format!("query outside the zone must be REFUSED without data, got {}", r.rcode)));
+        }
+        return f;
+    }
+    let an = data_only(&r.an);
+    let ns = data_only(&r.ns);
+    let one = |x: &Option<OutRs>| x.as_ref().map(|x| sorted(&[x.clone()]));
+    let soa = z.get(&c.origin, T_SOA).map(|s| out_of(s, &c.origin));
+    let apex_ns = z.get(&c.origin, T_NS).map(|s| out_of(s, &c.origin));
+    // never data from at/below a cut in the answer section (the DS of the cut excepted)
+    for rs in &an {
+        if let Some(cut) = z.cut(&rs.name, rs.ty) {
+            f.push(("below-cut", format!("answer section carries {} which is at/below the zone cut {}", out_txt(&[rs.clone()]), name_txt(&cut))));
+        }
+    }
+    // a server may stop chasing after a bounded number of RRsets (hickory: 8); the resolver restarts
+    let chain_truncated = exp.cnames >= 8 && an.len() >= 8 && an.len() <= exp.answers.len() && sorted(&an) == sorted(&exp.answers[..an.len()]);
+    if chain_truncated {
+        if r.rcode != "NOERROR" || !r.aa {
+            f.push(("answer", format!("partial CNAME chain must come with NOERROR and AA, got {} aa={}", r.rcode, b(r.aa))));
+        }
+        return f;
+    }
+    // authority of an answer that is not negative for the original name: not prescribed;
+    // accepted: nothing, the apex NS, or (after a CNAME whose target has no data) the SOA
+    let free_auth = |ns: &Vec<OutRs>, f: &mut Vec<(&'static str, String)>| {
+        let ok = ns.is_empty() || Some(sorted(ns)) == one(&apex_ns) || (exp.cnames > 0 && Some(sorted(ns)) == one(&soa));
+        if !ok {
+            f.push(("authority", format!("authority section must be empty, the apex NS or the SOA, got {}", out_txt(ns))));
+        }
+    };
+    match &exp.terminal {
+        Terminal::Referral(cut) => {
+            let want = out_of(z.get(cut, T_NS).unwrap(), cut);
+            if r.rcode != "NOERROR" {
+                f.push(("referral", format!("referral at {} expected, rcode {}", name_txt(cut), r.rcode)));
+            }
+            if sorted(&an) != sorted(&exp.answers) {
+                f.push(("referral", format!("referral at {}: answer section must hold exactly the CNAME chain {}, got {}", name_txt(cut), out_txt(&exp.answers), out_txt(&an))));
+            }
+            let ns_other: Vec<OutRs> = ns.iter().filter(|x| x.ty != T_DS).cloned().collect();
+            if sorted(&ns_other) != sorted(&[want.clone()]) {
+                f.push(("referral", format!("referral at {}: authority must be {}, got {}", name_txt(cut), out_txt(&[want]), out_txt(&ns))));
+            }
+            if exp.cnames == 0 && r.aa {
+                f.push(("referral-aa", format!("referral at {} must not set AA", name_txt(cut))));
+            }
+            if exp.cnames > 0 && !r.aa {
+                f.push(("aa", "authoritative answer (CNAME owned by the zone) without AA".into()));
+            }
+        }
+        Terminal::Data | Terminal::ChainEnd => {
+            if r.rcode != "NOERROR" {
+                f.push(("answer", format!("NOERROR expected, got {}", r.rcode)));
+            }
+            if sorted(&an) != sorted(&exp.answers) {
+                f.push(("answer", format!("answer section must be {}, got {}", out_txt(&exp.answers), out_txt(&an))));
+            }
+            if !r.aa {
+                f.push(("aa", "authoritative answer without AA".into()));
+            }
+            free_auth(&ns, &mut f);
+        }
+        Terminal::AnyOf(_) => unreachable!("ANY is checked through check_any"),
+        Terminal::NoData | Terminal::NxDomain => {
+            let nx = exp.terminal == Terminal::NxDomain;
+            if exp.cnames == 0 {
+                let want = if nx { "NXDOMAIN" } else { "NOERROR" };
+                if r.rcode != want {
+                    f.push((if nx { "nxdomain" } else { "nodata" }, format!("{} expected, got {}", want, r.rcode)));
+                }
+                if !an.is_empty() {
+                    f.push((if nx { "nxdomain" } else { "nodata" }, format!("negative answer expected, answer section has {}", out_txt(&an))));
+                }
+                if Some(sorted(&ns)) != one(&soa) {
+                    f.push(("negative-soa", format!("negative answer must carry exactly the SOA in the authority section, got {}", out_txt(&ns))));
+                }
+            } else {
+                // after a CNAME: RFC 1034 keeps NOERROR, RFC 6604 wants the rcode of the last step
+                if !(r.rcode == "NOERROR" || (nx && r.rcode == "NXDOMAIN")) {
+                    f.push(("answer", format!("after a CNAME chain rcode must be NOERROR{}, got {}", if nx { " or NXDOMAIN" } else { "" }, r.rcode)));
+                }
+                if sorted(&an) != sorted(&exp.answers) {
+                    f.push(("answer", format!("answer section must be the CNAME chain {}, got {}", out_txt(&exp.answers), out_txt(&an))));
+                }
+                free_auth(&ns, &mut f);
+            }
+            if !r.aa {
+                f.push(("aa", "authoritative answer without AA".into()));
+            }
+        }
+    }
+    f
+}
+
+/// `ANY` (RFC 8482): the response must be a correct response to a query for one concrete type
+/// the answering node owns (any type if the node is a CNAME: the server may then also chase it).
+fn check_any(c: &Case, exp: &Expected, r: &Resp, qn: &LName) -> Vec<(&'static str, String)> {
+    let Terminal::AnyOf(all) = &exp.terminal else {
+        return check(c, exp, r);
+    };
+    let mut cands: Vec<u16> = all.iter().map(|x| x.ty).collect();
+    if cands.contains(&T_CNAME) {
+        cands.extend(QTYPES.iter().filter(|t| **t != T_ANY));
+    }
+    let mut first: Option<Vec<(&'static str, String)>> = None;
+    for t in cands {
+        let e = reference(&c.origin, &c.zone, qn, t);
+        let f = check(c, &e, r);
+        if f.is_empty() {
+            return f;
+        }
+        first.get_or_insert(f);
+    }
+    vec![(
+        "any",
+        format!(
+            "ANY must be answered like a query for one of the types the node owns ({}), got {} an={}",
+            out_txt(&sorted(all)),
+            r.rcode,
+            out_txt(&data_only(&r.an))
+        ),
+    )]
+}
+
+// ------------------------------------------------------------------------------------------
+// DO=1 on a signed zone: RRSIGs on every authoritative RRset, denial proofs on negative and
+// wildcard answers (RFC 4035 §3.1.1-§3.1.3; NSEC3: RFC 5155 §7.2, presence only).
+// ------------------------------------------------------------------------------------------
+
+/// RFC 4034 §6.1 canonical ordering key
+fn canon_key(n: &LName) -> Vec<Vec<u8>> {
+    n.iter().rev().map(|l| l.to_ascii_lowercase().into_bytes()).collect()
+}
+
+struct NsecRec {
+    owner: LName,
+    next: LName,
+    types: Vec<String>,
+}
+
+fn nsecs_of(sec: &[OutRs]) -> Vec<NsecRec> {
+    let mut v = vec![];
+    for rs in sec.iter().filter(|r| r.ty == T_NSEC) {
+        for rd in &rs.rds {
+            if let Some((next, tys)) = rd.split_once(':') {
+                if let Some(next) = name_parse(next) {
+                    v.push(NsecRec { owner: rs.name.clone(), next, types: tys.split(',').map(String::from).collect() });
+                }
+            }
+        }
+    }
+    v
+}
+
+/// the NSEC proves that no name exists strictly between its owner and its next name
+fn nsec_covers(n: &NsecRec, x: &LName) -> bool {
+    let (o, nx, k) = (canon_key(&n.owner), canon_key(&n.next), canon_key(x));
+    o < k && (k < nx || nx <= o)
+}
+
+/// owners of wildcard-expanded RRsets of a section: RRSIG labels field < labels of the owner
+fn expanded_owners(sec: &[OutRs]) -> Vec<LName> {
+    let mut v: Vec<LName> = vec![];
+    for x in sec.iter().filter(|x| x.ty == T_RRSIG) {
+        let owner_labels = if x.name.first().is_some_and(|l| l == "*") { x.name.len() - 1 } else { x.name.len() };
+        if x.rds.iter().any(|d| d.rsplit_once('.').and_then(|(_, l)| l.parse::<usize>().ok()).is_some_and(|l| l < owner_labels)) && !v.contains(&x.name) {
+            v.push(x.name.clone());
+        }
+    }
+    v
+}
+
+/// classes of `Model/AuthZoneSignedDev.lean`, evaluated on the response the server really sent
+fn signed_classes(c: &Case, r: &Resp, qn: &LName) -> Vec<&'static str> {
+    let mut v = vec![];
+    if !c.dnssec_ok {
+        return v;
+    }
+    if c.mode == '3' {
+        // NSEC3 is not modelled: only "no NSEC3 at all behind a wildcard-expanded SOA-type answer"
+        if r.rcode == "NOERROR" && c.qtype == T_SOA && !expanded_owners(&r.an).is_empty() && !r.ns.iter().any(|x| x.ty == T_NSEC3) {
+            v.push("soa-query-wildcard-no-proof");
+        }
+        return v;
+    }
+    let nsecs = nsecs_of(&r.ns);
+    let covering = |x: &LName| nsecs.iter().any(|n| nsec_covers(n, x));
+    // nsec-no-wildcard-denial: repaired in /repo f7c9c53 — no class any more
+    if r.rcode == "NOERROR" && expanded_owners(&r.an).iter().any(|x| !covering(x)) {
+        v.push(if c.qtype == T_SOA { "soa-query-wildcard-no-proof" } else { "wildcard-expansion-not-proven" });
+    }
+    v
+}
+
+fn check_signed(c: &Case, exp: &Expected, r: &Resp, qn: &LName) -> Vec<(&'static str, String)> {
+    let mut f: Vec<(&'static str, String)> = vec![];
+    let z = RefZone::new(&c.origin, &c.zone);
+    if exp.refused || r.rcode == "REFUSED" {
+        return f;
+    }
+    // S1: every authoritative RRset of the answer and authority sections carries an RRSIG
+    for (sname, sec) in [("answer", &r.an), ("authority", &r.ns)] {
+        for rs in sec.iter().filter(|x| x.ty != T_RRSIG) {
+            let delegation_ns = rs.ty == T_NS && rs.name != c.origin && z.get(&rs.name, T_NS).is_some();
+            if delegation_ns {
+                continue;
+            }
+            let want = format!("{}.", ty_name(rs.ty));
+            let signed = sec.iter().any(|x| x.ty == T_RRSIG && x.name == rs.name && x.rds.iter().any(|d| d.starts_with(&want)));
+            if !signed {
+                f.push(("rrsig-missing", format!("{} section: {} {} has no RRSIG", sname, name_txt(&rs.name), ty_name(rs.ty))));
+            }
+        }
+    }
+    // S2: denial of existence for what the response claims
+    let an = data_only(&r.an);
+    let is_referral = r.ns.iter().any(|x| x.ty == T_NS && x.name != c.origin);
+    let negative = r.rcode == "NXDOMAIN" || (r.rcode == "NOERROR" && an.is_empty() && !is_referral);
+    // a wildcard expansion shows in the RRSIG labels field
+    let expanded = expanded_owners(&r.an);
+    let wildcard_answer = !expanded.is_empty();
+    if !(negative || wildcard_answer) {
+        return f;
+    }
+    if c.mode == '3' {
+        if !r.ns.iter().any(|x| x.ty == T_NSEC3) {
+            f.push(("denial-missing", format!("{} answer without any NSEC3 record", if negative { "negative" } else { "wildcard" })));
+        }
+        return f;
+    }
+    let nsecs = nsecs_of(&r.ns);
+    let covering = |x: &LName| nsecs.iter().any(|n| nsec_covers(n, x));
+    let tyq = ty_name(c.qtype);
+    if wildcard_answer && !negative {
+        for x in &expanded {
+            if !covering(x) {
+                f.push(("denial-missing", format!("wildcard-expanded answer {} without an NSEC covering that name", name_txt(x))));
+            }
+        }
+        return f;
+    }
+    // closest encloser and the wildcard below it, from the zone itself
+    let mut ce = qn.clone();
+    while !ce.is_empty() && !z.exists(&ce) {
+        ce = ce[1..].to_vec();
+    }
+    let mut wild = vec!["*".to_string()];
+    wild.extend(ce.iter().cloned());
+    let matching_without_type = |x: &LName| {
+        nsecs.iter().any(|n| n.owner == *x && !n.types.contains(&tyq) && (c.qtype == T_CNAME || !n.types.contains(&"CNAME".to_string())))
+    };
+    if r.rcode == "NXDOMAIN" {
+        if !covering(qn) {
+            f.push(("denial-missing", format!("NXDOMAIN without an NSEC covering {}", name_txt(qn))));
+        }
+        if !covering(&wild) {
+            f.push(("denial-missing", format!("NXDOMAIN without an NSEC covering the wildcard {}", name_txt(&wild))));
+        }
+    } else if z.nodes.contains_key(qn) {
+        if !matching_without_type(qn) {
+            f.push(("denial-missing", format!("NODATA without the NSEC of {} (type bitmap without {})", name_txt(qn), tyq)));
+        }
+    } else if z.exists(qn) {
+        // empty non-terminal
+        if !covering(qn) {
+            f.push(("denial-missing", format!("NODATA at the empty non-terminal {} without an NSEC covering it", name_txt(qn))));
+        }
+    } else {
+        // wildcard NODATA
+        if !covering(qn) || !matching_without_type(&wild) {
+            f.push(("denial-missing", format!("wildcard NODATA needs an NSEC covering {} and the NSEC of {}", name_txt(qn), name_txt(&wild))));
+        }
+    }
+    f
+}
+
+// ------------------------------------------------------------------------------------------
+// deviation classes — the decidable predicates of lean/HickoryVerif/Model/AuthZoneDev.lean,
+// re-implemented here; every `q` case is followed by a `dev` case on which the two are compared.
+// ------------------------------------------------------------------------------------------
+
+mod dev {
+    use super::*;
+
+    pub fn get<'a>(z: &'a [Rs], n: &[String], t: u16) -> Option<&'a Rs> {
+        z.iter().find(|r| r.name == n && r.ty == t)
+    }
+    fn is_suffix_or_eq(anc: &[String], n: &[String]) -> bool {
+        is_suffix(anc, n)
+    }
+    pub fn name_exists(z: &[Rs], n: &[String]) -> bool {
+        z.iter().any(|r| is_suffix_or_eq(n, &r.name))
+    }
+    /// top-down list of zone cuts on the way to `n`
+    pub fn cuts(z: &[Rs], o: &[String], n: &[String], t: u16) -> Vec<LName> {
+        let mut v = vec![];
+        for k in 0..=n.len() {
+            let s = &n[n.len() - k..];
+            if is_suffix_or_eq(o, s) && s != o && get(z, s, T_NS).is_some() && !(t == T_DS && s == n) {
+                v.push(s.to_vec());
+            }
+        }
+        v
+    }
+    pub fn closest_encloser(z: &[Rs], n: &[String]) -> LName {
+        let mut n = n;
+        while !n.is_empty() {
+            n = &n[1..];
+            if name_exists(z, n) {
+                return n.to_vec();
+            }
+        }
+        vec![]
+    }
+    fn walk<'a>(z: &'a [Rs], qname: &[String], qtype: u16) -> Option<&'a Rs> {
+        let mut s = qname;
+        while !s.is_empty() {
+            match (get(z, s, T_NS), get(z, s, T_SOA).is_some()) {
+                (Some(ns), false) => {
+                    if !(qtype == T_DS && s == qname) {
+                        return Some(ns);
+                    }
+                }
+                (Some(_), true) => return None,
+                (None, _) => {}
+            }
+            s = &s[1..];
+        }
+        None
+    }
+    pub fn scan<'a>(z: &'a [Rs], n: &[String], t: u16) -> Option<&'a Rs> {
+        z.iter().find(|r| r.name == n && (r.ty == t || r.ty == T_CNAME))
+    }
+    fn lookup_exact<'a>(z: &'a [Rs], n: &[String], t: u16) -> Option<&'a Rs> {
+        walk(z, n, t).or_else(|| scan(z, n, t))
+    }
+    pub fn is_wildcard_name(n: &[String]) -> bool {
+        n.first().is_some_and(|l| l == "*")
+    }
+    /// the wildcard owner `inner_lookup_wildcard` ends up using
+    pub fn wild_source(z: &[Rs], n: &[String], t: u16) -> Option<LName> {
+        if n.is_empty() || is_wildcard_name(n) {
+            return None;
+        }
+        let mut rest = &n[1..];
+        loop {
+            let mut w = vec!["*".to_string()];
+            w.extend(rest.iter().cloned());
+            if lookup_exact(z, &w, t).is_some() {
+                return Some(w);
+            }
+            if rest.is_empty() {
+                return None;
+            }
+            rest = &rest[1..];
+        }
+    }
+    pub fn replace_any(z: &[Rs], n: &[String]) -> u16 {
+        let here: Vec<&Rs> = z.iter().filter(|r| r.name == n).collect();
+        if let Some(r) = here.iter().find(|r| matches!(r.ty, T_CNAME | T_A | T_AAAA | T_MX)) {
+            return r.ty;
+        }
+        here.first().map(|r| r.ty).unwrap_or(T_A)
+    }
+    pub fn eff_type(z: &[Rs], qn: &[String], qt: u16) -> u16 {
+        if qt == T_ANY { replace_any(z, qn) } else { qt }
+    }
+    fn star_ce(z: &[Rs], n: &[String]) -> LName {
+        let mut w = vec!["*".to_string()];
+        w.extend(closest_encloser(z, n));
+        w
+    }
+    pub fn no_cut(z: &[Rs], o: &[String], n: &[String], t: u16) -> bool {
+        cuts(z, o, n, t).is_empty()
+    }
+    pub fn existing_no_block(z: &[Rs], o: &[String], n: &[String], t: u16) -> bool {
+        no_cut(z, o, n, t) && name_exists(z, n) && scan(z, n, t).is_none() && wild_source(z, n, t).is_some()
+    }
+    pub fn climbs_any(z: &[Rs], o: &[String], n: &[String], t: u16) -> bool {
+        no_cut(z, o, n, t) && !name_exists(z, n) && wild_source(z, n, t).is_some_and(|w| w != star_ce(z, n))
+    }
+    pub fn no_synth(z: &[Rs], o: &[String], n: &[String], t: u16) -> bool {
+        no_cut(z, o, n, t) && !name_exists(z, n) && name_exists(z, &star_ce(z, n)) && wild_source(z, n, t).is_none()
+    }
+    pub fn zone_wf(z: &[Rs], o: &[String]) -> bool {
+        get(z, o, T_SOA).is_some()
+            && get(z, o, T_NS).is_some()
+            && z.iter().all(|r| is_suffix_or_eq(o, &r.name))
+            && z.iter().all(|r| r.ty != T_SOA || r.name == o)
+            && z.iter().all(|r| {
+                r.ty != T_CNAME
+                    || (r.rds.first().is_some_and(|x| x.target.is_some()) && z.iter().all(|x| x.name != r.name || x.ty == T_CNAME))
+            })
+            && z.iter().all(|r| r.ty != T_NS || !is_wildcard_name(&r.name))
+            && !is_wildcard_name(o)
+    }
+
+    /// classes that hold of the case, in the order of `Drv/C10.lean: classesOf`
+    pub fn classes(c: &Case, qn: &LName, visited: &[LName]) -> Vec<&'static str> {
+        let (z, o) = (&c.zone[..], &c.origin[..]);
+        let t = eff_type(z, qn, c.qtype);
+        let per = |f: &dyn Fn(&[Rs], &[String], &[String], u16) -> bool| visited.iter().any(|n| f(z, o, n, t));
+        let mut v = vec![];
+        if per(&existing_no_block) {
+            v.push("existing-name-does-not-block");
+        }
+        if per(&|z, o, n, t| climbs_any(z, o, n, t) && !is_wildcard_name(&closest_encloser(z, n))) {
+            v.push("climbs-past-closest-encloser");
+        }
+        if per(&|z, o, n, t| climbs_any(z, o, n, t) && is_wildcard_name(&closest_encloser(z, n))) {
+            v.push("wildcard-not-self-blocking");
+        }
+        if visited.first().is_some_and(|n| no_synth(z, o, n, t) && !is_wildcard_name(n)) {
+            v.push("nodata-as-nxdomain");
+        }
+        if per(&|z, o, n, t| no_synth(z, o, n, t) && is_wildcard_name(n)) {
+            v.push("wildcard-qname-not-expanded");
+        }
+        if per(&|z, o, n, t| cuts(z, o, n, t).len() >= 2) {
+            v.push("nested-cut");
+        }
+        if visited.iter().skip(1).any(|n| !no_cut(z, o, n, t)) {
+            v.push("cname-into-cut");
+        }
+        if c.qtype == T_ANY && !z.iter().any(|r| r.name == *qn) {
+            v.push("any-not-at-owner");
+        }
+        v
+    }
+}
+
+/// names the standard algorithm resolves for the query with the type the server really looks up,
+/// bounded like `Spec.Rfc1034.chase` (at most 8 names)
+fn visited_names(c: &Case, qn: &LName) -> Vec<LName> {
+    let t = dev::eff_type(&c.zone, qn, c.qtype);
+    let mut v = reference(&c.origin, &c.zone, qn, t).visited;
+    v.truncate(8);
+    v
+}
+
+/// known-finding class of a failing clause ("" = none): a class whose predicate holds of the
+/// case and which explains that clause.
+fn classify(classes: &[&'static str], clause: &str) -> String {
+    let pick = |cands: &[&str]| -> String {
+        cands.iter().find(|c| classes.contains(c)).map(|c| format!("C10.{c}")).unwrap_or_default()
+    };
+    let wild = [
+        "existing-name-does-not-block",
+        "climbs-past-closest-encloser",
+        "wildcard-not-self-blocking",
+        "nodata-as-nxdomain",
+        "wildcard-qname-not-expanded",
+    ];
+    match clause {
+        // referral-aa, ns-any-below-cut, soa-below-cut: repaired in /repo af8bb96 — no class any more
+        "below-cut" => {
+            let mut v = vec!["cname-into-cut"];
+            v.extend(wild);
+            pick(&v)
+        }
+        // ANY is judged as a whole (one verdict): any deviation on its path explains it
+        "any" => {
+            let mut v = vec!["cname-into-cut", "nested-cut"];
+            v.extend(wild);
+            pick(&v)
+        }
+        "referral" => pick(&["cname-into-cut", "nested-cut"]),
+        "nodata" | "nxdomain" | "negative-soa" | "answer" | "authority" => pick(&wild),
+        "denial-missing" => pick(&["soa-query-wildcard-no-proof", "wildcard-expansion-not-proven"]),
+        _ => String::new(),
+    }
+}
+
+// ------------------------------------------------------------------------------------------
+
+pub fn exec(line: &str, rec: &mut Recorder) {
+    let t: Vec<&str> = line.split_whitespace().collect();
+    if t.first() == Some(&"dev") && t.get(1) == Some(&"n") {
+        rec.stat("skipped.dev-n-line-is-emitted-with-its-q-line");
+        return;
+    }
+    if t.first() == Some(&"dev") {
+        // class predicates only: harness mirror vs Lean definition
+        let mut tt = t.clone();
+        tt[0] = "q";
+        let Some(mut c) = case_parse(&tt) else {
+            rec.stat("skipped.unparsable-case");
+            return;
+        };
+        let canon = canon_zone(c.zone.clone());
+        let line_owned;
+        let line = if canon != c.zone {
+            c.zone = canon;
+            line_owned = format!("dev{}", &case_line(&c)[1..]);
+            &line_owned[..]
+        } else {
+            line
+        };
+        let qn = lower(&c.qname);
+        let cl = dev::classes(&c, &qn, &visited_names(&c, &qn));
+        let out = format!(
+            "wf={} classes={} thm=ok",
+            b(dev::zone_wf(&c.zone, &c.origin)),
+            if cl.is_empty() { "-".to_string() } else { cl.join(",") }
+        );
+        rec.case(line.to_string(), out);
+        rec.stat("op.dev");
+        return;
+    }
+    let Some(mut c) = case_parse(&t) else {
+        rec.stat("skipped.unparsable-case");
+        return;
+    };
+    let canon = canon_zone(c.zone.clone());
+    let line_owned;
+    let line = if canon != c.zone {
+        c.zone = canon;
+        line_owned = case_line(&c);
+        &line_owned[..]
+    } else {
+        line
+    };
+    let Some((cat, store)) = build_catalog(&c) else {
+        rec.stat("skipped.zone-not-stored-as-written");
+        return;
+    };
+    // signed (NSEC) zones: the case line carries the store after signing — what the model runs on
+    let line_signed;
+    let line = if let Some(st) = &store {
+        let txt = store_txt(st);
+        if c.store.as_ref().is_some_and(|x| *x != txt) {
+            rec.stat("skipped.signed-store-differs-from-case-line");
+            return;
+        }
+        c.store = Some(txt);
+        line_signed = case_line(&c);
+        &line_signed[..]
+    } else {
+        line
+    };
+    let r = catch(|| ask(&cat, &c));
+    let resp = match r {
+        Ok(Ok(m)) => resp_of(&m),
+        Ok(Err(e)) => {
+            let idx = rec.case(line.to_string(), "err".into());
+            rec.fail(idx, format!("no usable response: {e}"), "");
+            return;
+        }
+        Err(p) => {
+            let idx = rec.case(line.to_string(), format!("panic {p}"));
+            rec.fail(idx, format!("panic: {p}"), "");
+            return;
+        }
+    };
+    let shown = resp_txt(&resp);
+    let idx = if c.mode != '3' {
+        rec.case(line.to_string(), shown.clone())
+    } else {
+        rec.impl_only += 1;
+        rec.case(line.to_string(), "~".into())
+    };
+    let qn = lower(&c.qname);
+    if c.mode == 'n' {
+        // twin: the signed-stage class predicates, harness (on the real response) vs Lean (on the model)
+        let cl = signed_classes(&c, &resp, &qn);
+        let all_signed = store.as_ref().is_some_and(|st| st.iter().all(|r| r.sig_labels.is_some()));
+        rec.case(
+            format!("dev{}", &line[1..]),
+            format!("signed={} sclasses={}", b(all_signed), if cl.is_empty() { "-".to_string() } else { cl.join(",") }),
+        );
+        rec.stat("op.dev-signed");
+    }
+    let exp = reference(&c.origin, &c.zone, &qn, c.qtype);
+    rec.stat("op.q");
+    rec.stat(&format!("mode.{}", c.mode));
+    rec.stat(&format!("qtype.{}", ty_name(c.qtype)));
+    rec.stat(&format!("rcode.{}", resp.rcode));
+    rec.stat(&format!(
+        "expected.{}",
+        match &exp.terminal {
+            _ if exp.refused => "refused".to_string(),
+            Terminal::Data => format!("data{}{}", if exp.cnames > 0 { "+cname" } else { "" }, if exp.wildcard_used { "+wildcard" } else { "" }),
+            Terminal::AnyOf(_) => format!("any{}", if exp.wildcard_used { "+wildcard" } else { "" }),
+            Terminal::NoData => format!("nodata{}{}", if exp.cnames > 0 { "+cname" } else { "" }, if exp.wildcard_used { "+wildcard" } else { "" }),
+            Terminal::NxDomain => format!("nxdomain{}", if exp.cnames > 0 { "+cname" } else { "" }),
+            Terminal::Referral(_) => format!("referral{}", if exp.cnames > 0 { "+cname" } else { "" }),
+            Terminal::ChainEnd => "cname-chain-end".into(),
+        }
+    ));
+    rec.stat(&format!("chain.len.{}", exp.cnames.min(9)));
+    rec.stat(&format!("zone.rrsets.{:02}+", (c.zone.len() / 4) * 4));
+    if !exp.refused && !(exp.terminal == Terminal::NxDomain && exp.cnames == 0 && c.zone.len() <= 2) {
+        rec.nontrivial(idx);
+    }
+    // RFC 4592 §4.2: NS at a wildcard owner is undefined; a second SOA or an owner outside the
+    // zone is not a zone — no verdict beyond "answers, no panic" (the model still has to agree)
+    if !dev::zone_wf(&c.zone, &c.origin) {
+        rec.stat("oracle.skipped.ill-formed-zone");
+        return;
+    }
+    let mut fails = if c.qtype == T_ANY { check_any(&c, &exp, &resp, &qn) } else { check(&c, &exp, &resp) };
+    if c.mode != 'u' && c.dnssec_ok && fails.is_empty() {
+        // the answer itself is the prescribed one: now its signatures and denial proofs
+        fails.extend(check_signed(&c, &exp, &resp, &qn));
+    }
+    if fails.is_empty() {
+        rec.stat("oracle.ok");
+        return;
+    }
+    let mut classes = dev::classes(&c, &qn, &visited_names(&c, &qn));
+    if c.mode != 'u' {
+        classes.extend(signed_classes(&c, &resp, &qn));
+    }
+    for (clause, what) in fails {
+        let class = classify(&classes, clause);
+        rec.stat(&format!("oracle-fail.{}", if class.is_empty() { clause } else { &class }));
+        rec.fail(idx, format!("{clause}: {what}{}", if c.mode == 'u' { String::new() } else { format!(" [response: {shown}]") }), &class);
+    }
+}
+
+/// a `q` case followed by its `dev` twin
+fn exec_both(c: &Case, rec: &mut Recorder) {
+    let l = case_line(c);
+    exec(&l, rec);
+    if c.mode == 'u' {
+        exec(&format!("dev{}", &l[1..]), rec);
+    }
+}
+
+// ------------------------------------------------------------------------------------------
+// generator
+// ------------------------------------------------------------------------------------------
+
+fn nm(s: &str) -> LName {
+    name_parse(s).expect("name literal")
+}
+
+fn rd(tag: u32) -> Rd {
+    Rd { tag, target: None }
+}
+fn rdt(tag: u32, t: &LName) -> Rd {
+    Rd { tag, target: Some(t.clone()) }
+}
+
+/// sorts RRsets into the store's order (Name::cmp, then type code) and merges duplicates
+pub fn canon_zone(mut z: Vec<Rs>) -> Vec<Rs> {
+    let mut m: BTreeMap<(LowerName, u16), Rs> = BTreeMap::new();
+    for rs in z.drain(..) {
+        let k = (LowerName::new(&to_name(&rs.name)), rs.ty);
+        match m.get_mut(&k) {
+            Some(e) => {
+                for r in rs.rds {
+                    if !e.rds.contains(&r) {
+                        e.rds.push(r)
+                    }
+                }
+            }
+            None => {
+                m.insert(k, rs);
+            }
+        }
+    }
+    let mut v: Vec<(LowerName, u16, Rs)> = m.into_iter().map(|((n, t), r)| (n, t, r)).collect();
+    v.sort_by(|a, b| a.0.cmp(&b.0).then(RecordType::from(a.1).cmp(&RecordType::from(b.1))));
+    v.into_iter().map(|x| x.2).collect()
+}
+
+fn under(prefix: &[&str], origin: &LName) -> LName {
+    let mut v: Vec<String> = prefix.iter().map(|s| s.to_string()).collect();
+    v.extend(origin.iter().cloned());
+    v
+}
+
+fn gen_zone(r: &mut Rng, origin: &LName) -> Vec<Rs> {
+    let labels = ["a", "b", "c", "*", "ns", "w"];
+    let mut z: Vec<Rs> = vec![];
+    z.push(Rs { name: origin.clone(), ty: T_SOA, rds: vec![rd(0)] });
+    let nsn = under(&["ns"], origin);
+    let mut apex_ns = vec![rdt(0, &nsn)];
+    if r.chance(1, 3) {
+        apex_ns.push(rdt(0, &nm("ns.other.")));
+    }
+    z.push(Rs { name: origin.clone(), ty: T_NS, rds: apex_ns });
+    if r.chance(2, 3) {
+        z.push(Rs { name: nsn.clone(), ty: T_A, rds: vec![rd(53)] });
+    }
+    // owner names: depth 1..3 under the origin
+    let n_owners = r.range(1, 7);
+    let mut owners: Vec<LName> = vec![];
+    for _ in 0..n_owners {
+        let depth = *r.pick(&[1usize, 1, 1, 2, 2, 3]);
+        let mut pre: Vec<&str> = vec![];
+        for i in 0..depth {
+            let l = if i == 0 { *r.pick(&labels) } else { *r.pick(&["a", "b", "c", "*"]) };
+            pre.push(l);
+        }
+        let o = under(&pre, origin);
+        if !owners.contains(&o) {
+            owners.push(o);
+        }
+    }
+    let target = |r: &mut Rng, owners: &Vec<LName>| -> LName {
+        match r.below(8) {
+            0 => nm("host.other."),
+            1 => under(&["nx"], origin),
+            2 => under(&["x", "a"], origin),
+            3 => origin.clone(),
+            _ => r.pick(owners).clone(),
+        }
+    };
+    for o in owners.clone() {
+        match r.below(12) {
+            0 | 1 => z.push(Rs { name: o.clone(), ty: T_A, rds: vec![rd(1)] }),
+            2 => {
+                z.push(Rs { name: o.clone(), ty: T_A, rds: vec![rd(1), rd(2)] });
+                z.push(Rs { name: o.clone(), ty: T_AAAA, rds: vec![rd(1)] });
+            }
+            3 => z.push(Rs { name: o.clone(), ty: T_TXT, rds: vec![rd(7)] }),
+            4 => {
+                let t = target(r, &owners);
+                z.push(Rs { name: o.clone(), ty: T_MX, rds: vec![rdt(10, &t)] });
+                if r.chance(1, 2) {
+                    z.push(Rs { name: o.clone(), ty: T_TXT, rds: vec![rd(3)] });
+                }
+            }
+            5 | 6 | 7 => {
+                let t = target(r, &owners);
+                z.push(Rs { name: o.clone(), ty: T_CNAME, rds: vec![rdt(0, &t)] });
+            }
+            8 | 9 | 10 if o[0] == "*" && !r.chance(1, 12) => z.push(Rs { name: o.clone(), ty: T_TXT, rds: vec![rd(4)] }),
+            8 | 9 | 10 => {
+                // delegation, with or without glue / DS
+                let inside = r.chance(1, 2);
+                let mut g = vec!["ns".to_string()];
+                g.extend(o.iter().cloned());
+                let t = if inside { g.clone() } else { nm("ns.other.") };
+                z.push(Rs { name: o.clone(), ty: T_NS, rds: vec![rdt(0, &t)] });
+                if inside && r.chance(2, 3) {
+                    z.push(Rs { name: g, ty: T_A, rds: vec![rd(9)] });
+                }
+                if r.chance(1, 3) {
+                    z.push(Rs { name: o.clone(), ty: T_DS, rds: vec![rd(11)] });
+                }
+                if r.chance(1, 4) {
+                    // occluded data below the cut
+                    let mut occ = vec!["a".to_string()];
+                    occ.extend(o.iter().cloned());
+                    z.push(Rs { name: occ, ty: T_A, rds: vec![rd(66)] });
+                }
+            }
+            _ => z.push(Rs { name: o.clone(), ty: *r.pick(&[T_AAAA, T_TXT, T_MX, T_A]), rds: vec![rd(5)] }),
+        }
+    }
+    // MX needs a target
+    for rs in z.iter_mut() {
+        if rs.ty == T_MX {
+            for x in rs.rds.iter_mut() {
+                if x.target.is_none() {
+                    x.target = Some(origin.clone());
+                }
+            }
+        }
+    }
+    canon_zone(z)
+}
+
+fn gen_qnames(r: &mut Rng, origin: &LName, zone: &[Rs]) -> Vec<LName> {
+    let mut q: BTreeSet<LName> = BTreeSet::new();
+    q.insert(origin.clone());
+    for rs in zone {
+        q.insert(rs.name.clone());
+        // parents (ENTs) and children
+        let mut p = rs.name.clone();
+        while p.len() > origin.len() {
+            p = p[1..].to_vec();
+            q.insert(p.clone());
+        }
+        for l in ["a", "x", "*"] {
+            let mut c = vec![l.to_string()];
+            c.extend(rs.name.iter().cloned());
+            q.insert(c);
+        }
+        for rd in &rs.rds {
+            if let Some(t) = &rd.target {
+                q.insert(t.clone());
+            }
+        }
+    }
+    q.insert(under(&["x", "y"], origin));
+    q.insert(nm("other."));
+    q.insert(vec![]);
+    let mut v: Vec<LName> = q.into_iter().collect();
+    // deterministic shuffle
+    for i in (1..v.len()).rev() {
+        let j = r.below(i as u64 + 1) as usize;
+        v.swap(i, j);
+    }
+    v
+}
+
+/// structured zones around one feature each (chains, loops, nested cuts, the RFC 4592 example)
+fn gen_special(r: &mut Rng, origin: &LName) -> Vec<Rs> {
+    let mut z: Vec<Rs> = vec![
+        Rs { name: origin.clone(), ty: T_SOA, rds: vec![rd(0)] },
+        Rs { name: origin.clone(), ty: T_NS, rds: vec![rdt(0, &nm("ns.other."))] },
+    ];
+    match r.below(6) {
+        0 | 1 => {
+            // CNAME chain c0 -> c1 -> ... -> end
+            let k = r.range(1, 10) as usize;
+            let nmk = |i: usize| under(&[&format!("c{i}")], origin);
+            let wild_at = if r.chance(1, 4) { Some(r.below(k as u64) as usize) } else { None };
+            for i in 0..k {
+                let owner = if wild_at == Some(i) && i > 0 {
+                    // the link is synthesised from a wildcard: target of the previous one is x.w<i>
+                    under(&["*", &format!("c{i}")], origin)
+                } else {
+                    nmk(i)
+                };
+                let next = if i + 1 < k {
+                    if wild_at == Some(i + 1) { under(&["x", &format!("c{}", i + 1)], origin) } else { nmk(i + 1) }
+                } else {
+                    match r.below(8) {
+                        0 => nmk(0),                          // loop to the start
+                        1 => nmk(i),                          // self loop
+                        2 => nm("host.other."),               // leaves the zone
+                        3 => under(&["nx"], origin),          // no such name
+                        4 => under(&["x", "cut"], origin),    // below a cut
+                        5 => under(&["ent"], origin),         // empty non-terminal
+                        6 => under(&["x", "wild"], origin),   // wildcard
+                        _ => under(&["end"], origin),
+                    }
+                };
+                z.push(Rs { name: owner, ty: T_CNAME, rds: vec![rdt(0, &next)] });
+            }
+            z.push(Rs { name: under(&["end"], origin), ty: T_A, rds: vec![rd(1)] });
+            z.push(Rs { name: under(&["end"], origin), ty: T_TXT, rds: vec![rd(2)] });
+            z.push(Rs { name: under(&["cut"], origin), ty: T_NS, rds: vec![rdt(0, &under(&["ns", "cut"], origin))] });
+            z.push(Rs { name: under(&["ns", "cut"], origin), ty: T_A, rds: vec![rd(9)] });
+            z.push(Rs { name: under(&["a", "ent"], origin), ty: T_A, rds: vec![rd(3)] });
+            z.push(Rs { name: under(&["*", "wild"], origin), ty: T_A, rds: vec![rd(4)] });
+        }
+        2 => {
+            // nested cuts, occluded data, DS, glue
+            z.push(Rs { name: under(&["sub"], origin), ty: T_NS, rds: vec![rdt(0, &under(&["ns", "sub"], origin)), rdt(0, &nm("ns.other."))] });
+            z.push(Rs { name: under(&["ns", "sub"], origin), ty: T_A, rds: vec![rd(9)] });
+            z.push(Rs { name: under(&["deep", "sub"], origin), ty: T_NS, rds: vec![rdt(0, &nm("ns.other."))] });
+            if r.chance(1, 2) {
+                z.push(Rs { name: under(&["sub"], origin), ty: T_DS, rds: vec![rd(7)] });
+            }
+            if r.chance(1, 2) {
+                z.push(Rs { name: under(&["a", "deep", "sub"], origin), ty: T_A, rds: vec![rd(66)] });
+            }
+            if r.chance(1, 2) {
+                z.push(Rs { name: under(&["*", "sub"], origin), ty: T_TXT, rds: vec![rd(5)] });
+            }
+            z.push(Rs { name: under(&["alias"], origin), ty: T_CNAME, rds: vec![rdt(0, &under(&["www", "deep", "sub"], origin))] });
+            z.push(Rs { name: under(&["*"], origin), ty: T_A, rds: vec![rd(1)] });
+        }
+        3 => {
+            // RFC 4592 §2.2.1 example zone (SRV replaced by TXT)
+            z.push(Rs { name: under(&["*"], origin), ty: T_TXT, rds: vec![rd(1)] });
+            z.push(Rs { name: under(&["*"], origin), ty: T_MX, rds: vec![rdt(10, &under(&["host1"], origin))] });
+            z.push(Rs { name: under(&["sub", "*"], origin), ty: T_TXT, rds: vec![rd(2)] });
+            z.push(Rs { name: under(&["host1"], origin), ty: T_A, rds: vec![rd(1)] });
+            z.push(Rs { name: under(&["_ssh", "_tcp", "host1"], origin), ty: T_TXT, rds: vec![rd(3)] });
+            z.push(Rs { name: under(&["_ssh", "_tcp", "host2"], origin), ty: T_TXT, rds: vec![rd(4)] });
+            z.push(Rs { name: under(&["subdel"], origin), ty: T_NS, rds: vec![rdt(0, &nm("ns.other."))] });
+        }
+        4 => {
+            // wildcards at several depths, wildcard CNAME, ENT wildcard
+            for pre in [vec!["*"], vec!["*", "a"], vec!["*", "b", "a"], vec!["x", "*", "a"]] {
+                if r.chance(2, 3) {
+                    let ty = *r.pick(&[T_A, T_TXT, T_CNAME, T_MX]);
+                    let rds = match ty {
+                        T_CNAME => vec![rdt(0, &under(&[*r.pick(&["t", "nx", "q.a", "*.a"])], origin))],
+                        T_MX => vec![rdt(5, &under(&["t"], origin))],
+                        _ => vec![rd(1)],
+                    };
+                    z.push(Rs { name: under(&pre, origin), ty, rds });
+                }
+            }
+            z.push(Rs { name: under(&["t"], origin), ty: T_A, rds: vec![rd(8)] });
+            if r.chance(1, 2) {
+                z.push(Rs { name: under(&["a"], origin), ty: T_TXT, rds: vec![rd(6)] });
+            }
+        }
+        _ => {
+            // not well-formed on purpose: NS at a wildcard, SOA below the apex, owner outside
+            match r.below(3) {
+                0 => z.push(Rs { name: under(&["*"], origin), ty: T_NS, rds: vec![rdt(0, &nm("ns.other."))] }),
+                1 => {
+                    z.push(Rs { name: under(&["child"], origin), ty: T_SOA, rds: vec![rd(0)] });
+                    z.push(Rs { name: under(&["child"], origin), ty: T_NS, rds: vec![rdt(0, &nm("ns.other."))] });
+                    z.push(Rs { name: under(&["www", "child"], origin), ty: T_A, rds: vec![rd(1)] });
+                }
+                _ => {
+                    z.push(Rs { name: nm("*."), ty: T_A, rds: vec![rd(1)] });
+                    z.push(Rs { name: nm("www.other."), ty: T_A, rds: vec![rd(2)] });
+                }
+            }
+            z.push(Rs { name: under(&["www"], origin), ty: T_A, rds: vec![rd(1)] });
+        }
+    }
+    // "x.y" style prefixes given as one string above: split them
+    for rs in z.iter_mut() {
+        for x in rs.rds.iter_mut() {
+            if let Some(t) = &mut x.target {
+                *t = t.iter().flat_map(|l| l.split('.').map(String::from)).collect();
+            }
+        }
+        rs.name = rs.name.iter().flat_map(|l| l.split('.').map(String::from)).collect();
+    }
+    canon_zone(z)
+}
+
+/// small-scope enumeration (thorough tier): every assignment of a content option to five owner
+/// names x nine query names x the nine query types
+fn exhaustive(rec: &mut Recorder) {
+    let o = nm("e.");
+    let owners = [nm("a.e."), nm("*.e."), nm("b.a.e."), nm("*.a.e."), nm("c.e.")];
+    let qnames = [nm("e."), nm("a.e."), nm("b.a.e."), nm("c.e."), nm("x.e."), nm("x.a.e."), nm("x.b.a.e."), nm("*.e."), nm("x.*.e."), nm("*.x.e.")];
+    // options: nothing | A | TXT | CNAME a.e. | CNAME x.a.e. | NS (cut)
+    let n_opt = 6usize;
+    let total = n_opt.pow(owners.len() as u32);
+    for code in 0..total {
+        let mut z: Vec<Rs> = vec![
+            Rs { name: o.clone(), ty: T_SOA, rds: vec![rd(0)] },
+            Rs { name: o.clone(), ty: T_NS, rds: vec![rdt(0, &nm("ns.other."))] },
+        ];
+        let mut k = code;
+        for ow in &owners {
+            let opt = k % n_opt;
+            k /= n_opt;
+            match opt {
+                1 => z.push(Rs { name: ow.clone(), ty: T_A, rds: vec![rd(1)] }),
+                2 => z.push(Rs { name: ow.clone(), ty: T_TXT, rds: vec![rd(2)] }),
+                3 => z.push(Rs { name: ow.clone(), ty: T_CNAME, rds: vec![rdt(0, &nm("a.e."))] }),
+                4 => z.push(Rs { name: ow.clone(), ty: T_CNAME, rds: vec![rdt(0, &nm("x.a.e."))] }),
+                5 => z.push(Rs { name: ow.clone(), ty: T_NS, rds: vec![rdt(0, &nm("ns.other."))] }),
+                _ => {}
+            }
+        }
+        let z = canon_zone(z);
+        for (i, qn) in qnames.iter().enumerate() {
+            for (j, qt) in QTYPES.iter().enumerate() {
+                let c = Case { mode: 'u', origin: o.clone(), zone: z.clone(), qname: qn.clone(), qtype: *qt, dnssec_ok: false, store: None };
+                let l = case_line(&c);
+                exec(&l, rec);
+                if (code + i + j) % 5 == 0 {
+                    exec(&format!("dev{}", &l[1..]), rec);
+                }
+                // every 9th zone also signed (NSEC; NSEC3 for every 45th), DO=1
+                if code % 9 == 4 && dev::zone_wf(&z, &o) {
+                    let mode = if code % 45 == 4 { '3' } else { 'n' };
+                    let c = Case { mode, origin: o.clone(), zone: z.clone(), qname: qn.clone(), qtype: *qt, dnssec_ok: true, store: None };
+                    exec(&case_line(&c), rec);
+                }
+            }
+        }
+    }
+}
+
+pub fn run(o: &Opts, rec: &mut Recorder) {
+    rec.rule = "zones over a small name universe (apex SOA+NS, hosts, ENTs, wildcards at depth 1-3, CNAME chains / loops / out-of-zone targets, delegations with and without glue, DS at cuts, occluded data below cuts, nested cuts, a few ill-formed zones) x qnames in and around the zone x {A,AAAA,MX,NS,CNAME,SOA,DS,TXT,ANY}; every q case has a dev twin comparing the harness' class predicates and the theorem statement with the Lean side; a case is non-trivial unless the query is outside the zone or a plain NXDOMAIN in an apex-only zone; distinct by case line".into();
+    for l in o.pre_lines.clone() {
+        exec(&l, rec);
+        if l.starts_with("q u ") {
+            exec(&format!("dev{}", &l[1..]), rec);
+        }
+    }
+    rec.corpus_cases = rec.cases.len();
+    if o.replay_only {
+        return;
+    }
+    let mut r = Rng::new(o.seed);
+    let zones = o.n(1000, 6000);
+    for zi in 0..zones {
+        // mostly `example.`; sometimes a deeper origin, a one-letter TLD, the root zone
+        let origin = match zi % 16 {
+            5 => nm("z.example."),
+            9 => nm("x."),
+            13 => nm("."),
+            _ => nm("example."),
+        };
+        let z = if zi % 3 == 2 { gen_special(&mut r, &origin) } else { gen_zone(&mut r, &origin) };
+        let qs = gen_qnames(&mut r, &origin, &z);
+        for (i, qn) in qs.iter().enumerate() {
+            if i >= 16 {
+                break;
+            }
+            for qt in QTYPES {
+                if !r.chance(1, 2) && i >= 5 {
+                    continue;
+                }
+                let mut qn = qn.clone();
+                if r.chance(1, 10) {
+                    qn = qn.iter().map(|l| l.to_ascii_uppercase()).collect();
+                }
+                let c = Case { mode: 'u', origin: origin.clone(), zone: z.clone(), qname: qn.clone(), qtype: qt, dnssec_ok: r.chance(1, 8), store: None };
+                exec_both(&c, rec);
+                if zi % 4 == 0 && dev::zone_wf(&z, &origin) {
+                    let mode = if r.chance(3, 4) { 'n' } else { '3' };
+                    let c = Case { mode, origin: origin.clone(), zone: z.clone(), qname: qn, qtype: qt, dnssec_ok: !r.chance(1, 6), store: None };
+                    exec_both(&c, rec);
+                }
+            }
+        }
+    }
+    if o.thorough() {
+        exhaustive(rec);
+    }
 }
